@@ -36,6 +36,9 @@ struct Contract {
     /// proof text inserted before the closing brace of the body (only for bodies without tail expression)
     #[serde(default)]
     exit: String,
+    /// the exit text also goes before every explicit `return` (R26b)
+    #[serde(default)]
+    exit_all: bool,
     /// "ordinal" -> proof text inserted before the ordinal-th statement-level anchor (unused by default)
     #[serde(default)]
     external: bool,
@@ -311,6 +314,8 @@ struct FnState {
     handled_chain_end: usize,
     /// top-level `let x = <init>;` statements of the body (for R21b)
     lets: Vec<LetInfo>,
+    /// R32: the tail expression is `X.map(|x| E)` and the function returns Result / Option: (span, returns Result)
+    tail_map: Option<(usize, usize, bool)>,
 }
 
 #[derive(Clone)]
@@ -345,6 +350,8 @@ fn expr_is_pure(e: &syn::Expr) -> bool {
         syn::Expr::Reference(r) => r.mutability.is_none() && expr_is_pure(&r.expr),
         syn::Expr::Cast(c) => expr_is_pure(&c.expr),
         syn::Expr::MethodCall(m) => QUERIES.contains(&m.method.to_string().as_str()) && expr_is_pure(&m.receiver) && m.args.iter().all(expr_is_pure),
+        // the per-language `lemmatize(&str) -> &str` is a function of its argument (its contract says which)
+        syn::Expr::Call(c) => matches!(&*c.func, syn::Expr::Path(p) if p.path.is_ident("lemmatize")) && c.args.iter().all(expr_is_pure),
         _ => false,
     }
 }
@@ -551,8 +558,25 @@ impl<'p> Ctx<'p> {
                 }
             }
         }
+        let tail_map = {
+            let ret = match &sig.output {
+                syn::ReturnType::Type(_, t) => match &**t {
+                    syn::Type::Path(tp) => tp.path.segments.last().map(|s| s.ident.to_string()),
+                    _ => None,
+                },
+                _ => None,
+            };
+            match (ret.as_deref(), block.and_then(|b| b.stmts.last())) {
+                (Some(r @ ("Result" | "Option")), Some(syn::Stmt::Expr(syn::Expr::MethodCall(m), None))) if m.method == "map" && m.args.len() == 1 => {
+                    let (ts, te) = br(m.span());
+                    Some((ts, te, r == "Result"))
+                }
+                _ => None,
+            }
+        };
         self.fn_stack.push(FnState {
             lets,
+            tail_map,
             body_start: block.map(|b| br(b.span()).0),
             strlits: Vec::new(),
             rename_self: mut_self,
@@ -1314,6 +1338,26 @@ impl<'ast, 'p> Visit<'ast> for Ctx<'p> {
         visit::visit_expr_binary(self, b);
     }
 
+    // R26b: the exit hint of a contracted function also goes before every explicit `return` (an early return is an exit too)
+    fn visit_expr_return(&mut self, r: &'ast syn::ExprReturn) {
+        let exit = match self.fn_stack.last() {
+            Some(f) if !f.external => f.contract.as_ref().filter(|c| c.exit_all).map(|c| c.exit.trim_end().to_string()).unwrap_or_default(),
+            _ => String::new(),
+        };
+        if !exit.trim().is_empty() && self.in_verified_fn() {
+            let (s, e) = br(r.span());
+            match &r.expr {
+                Some(ex) => {
+                    let (es, ee) = br(ex.span());
+                    self.replace(s, e, vec![Part::Lit("{ let vx_ret = ".into()), Part::Src(es, ee), Part::Lit(format!(";\n{}\nreturn vx_ret; }}", exit))]);
+                }
+                None => self.replace(s, e, vec![Part::Lit(format!("{{ {}\nreturn; }}", exit))]),
+            }
+            self.log(s, "R26b", "exit hint repeated before an explicit return");
+        }
+        visit::visit_expr_return(self, r);
+    }
+
     fn visit_expr_method_call(&mut self, m: &'ast syn::ExprMethodCall) {
         let (s, e) = br(m.span());
         let verified = self.in_verified_fn();
@@ -1356,6 +1400,27 @@ impl<'ast, 'p> Visit<'ast> for Ctx<'p> {
                         visit::visit_expr_method_call(self, m);
                         return;
                     }
+                }
+            }
+        }
+        // R32: a function that returns Result (Option) and ends in `X.map(|x| E)`: X is a Result (Option) too, and `map` is by definition
+        //   match X { Ok(x) => Ok(E), Err(e) => Err(e) }      (match X { Some(x) => Some(E), None => None })
+        if verified && m.method == "map" && m.args.len() == 1 {
+            let hit = self.fn_stack.last().and_then(|f| f.tail_map).filter(|t| t.0 == s && t.1 == e);
+            if let (Some((_, _, is_res)), syn::Expr::Closure(c)) = (hit, &m.args[0]) {
+                let simple = c.inputs.len() == 1 && matches!(&c.inputs[0], syn::Pat::Ident(pi) if pi.by_ref.is_none() && pi.subpat.is_none())
+                    && c.capture.is_none() && matches!(c.output, syn::ReturnType::Default);
+                if simple {
+                    let (rs, re) = br(m.receiver.span());
+                    let (ps, pe) = br(c.inputs[0].span());
+                    let (bs, be) = br(c.body.span());
+                    let (some, tail) = if is_res { ("Ok", "Err(vx_e) => Err(vx_e)") } else { ("Some", "None => None") };
+                    self.replace(s, e, vec![Part::Lit("(match ".into()), Part::Src(rs, re), Part::Lit(format!(" {{ {}(", some)), Part::Src(ps, pe),
+                        Part::Lit(format!(") => {}(", some)), Part::Src(bs, be), Part::Lit(format!("), {} }})", tail))]);
+                    self.log(s, "R32", "tail `X.map(closure)` of a function returning Result / Option -> match (std's definition)");
+                    if let Some(f) = self.fn_stack.last_mut() { f.handled_chain_end = e; }
+                    visit::visit_expr_method_call(self, m);
+                    return;
                 }
             }
         }
@@ -1448,7 +1513,8 @@ impl<'ast, 'p> Visit<'ast> for Ctx<'p> {
             }
         }
         // R20: `.parse()` (target f64 everywhere in this crate) -> vx_parse_f64
-        if verified && m.args.is_empty() && m.method == "parse" && m.turbofish.is_none() && self.plan.parse_f64 {
+        let tf_f64 = m.turbofish.as_ref().map(|t| squash(&quote::ToTokens::to_token_stream(t).to_string()) == "::<f64>").unwrap_or(true);
+        if verified && m.args.is_empty() && m.method == "parse" && tf_f64 && self.plan.parse_f64 {
             let (rs, re) = br(m.receiver.span());
             self.replace(
                 s,
@@ -1972,7 +2038,13 @@ fn expand_list_macros(src: String, file: &str) -> (String, Vec<usize>, Vec<Strin
         if p1.as_char() != '=' || p2.as_char() != '>' || bg.delimiter() != Delimiter::Brace { continue }
         if toks.len() == 5 { if let TT::Punct(p) = &toks[4] { if p.as_char() != ';' { continue } } else { continue } }
         let mt: Vec<TT> = mg.stream().into_iter().collect();
-        // $ ( $ v : ident ) , +|*
+        // $ ( $ v : ident ) , +|*      optionally followed by `$(,)?` (a trailing comma in the invocation)
+        let mt: Vec<TT> = if mt.len() == 7 {
+            let tail_ok = matches!((&mt[4], &mt[5], &mt[6]), (TT::Punct(a), TT::Group(g), TT::Punct(q))
+                if a.as_char() == '$' && q.as_char() == '?' && g.delimiter() == Delimiter::Parenthesis && g.stream().to_string().trim() == ",");
+            if !tail_ok { continue }
+            mt[..4].to_vec()
+        } else { mt };
         if mt.len() != 4 { continue }
         let (TT::Punct(d), TT::Group(ig), TT::Punct(sep), TT::Punct(rep)) = (&mt[0], &mt[1], &mt[2], &mt[3]) else { continue };
         if d.as_char() != '$' || sep.as_char() != ',' || !(rep.as_char() == '+' || rep.as_char() == '*') || ig.delimiter() != Delimiter::Parenthesis { continue }
